@@ -248,4 +248,10 @@ directory client cannot be driven offline; this skeleton is the only tie for it.
 theorem C17_skeleton_listMemberships : Sso.Generated.skel_gadmin_listMemberships =
     ["for{", "call:Now", "call:List", "call:MaxResults", "if{", "call:PageToken", "}", "func{", "call:Do", "return", "}", "call:Call", "if{", "typeswitch{", "case{", "switch{", "case 400{", "call:Error", "if{", "}", "}", "case 404{", "}", "case 429{", "}", "case 503{", "}", "}", "}", "case{", "}", "case{", "}", "}", "return", "}", "range{", "switch{", "case \"USER\"{", "call:append", "}", "case \"GROUP\"{", "if{", "continue", "}", "call:listMemberships", "if{", "return", "}", "call:append", "}", "default{", "call:Errorf", "continue", "}", "}", "}", "if{", "break", "}", "}", "return"] := by decide
 
+/-- Tie (T1), third wave: the constructors and option functions that hand configured values to the components this property
+speaks about (auth_newProvider). -/
+theorem C17_wiring3 :
+    Sso.Generated.skel_auth_newProvider =
+      ["switch{", "case providers.GoogleProviderName{", "call:NewGoogleProvider", "if{", "return", "}", "call:NewFillCache", "store:googleProvider.GroupsCache", "call:NewSingleFlightProvider", "}", "case providers.OktaProviderName{", "call:NewOktaProvider", "if{", "return", "}", "call:NewGroupCache", "call:NewSingleFlightProvider", "}", "case providers.AmazonCognitoProviderName{", "call:NewAmazonCognitoProvider", "if{", "return", "}", "call:NewFillCache", "store:amazonCognitoProvider.GroupsCache", "call:NewSingleFlightProvider", "}", "case \"test\"{", "call:NewTestProvider", "return", "}", "default{", "call:Errorf", "return", "}", "}", "return"] := by decide
+
 end Sso.Caches
